@@ -82,6 +82,7 @@ pub struct RestartStats {
 	pub payments_sent: u64,
 	pub payments_failed: u64,
 	pub claimed_then_sent: u64,
+	pub dust_forfeited_after_stale_restart: u64,
 }
 
 /// What the harness knows about the persisted state at the moment of a manager snapshot.
@@ -119,6 +120,10 @@ pub struct RestartOracle {
 	/// per node: payments whose PaymentSent was handled by the running manager or an ancestor of it (a
 	/// restart from snapshot S continues the lineage of S, not that of the manager that crashed)
 	sent_lineage: BTreeMap<usize, BTreeSet<[u8; 32]>>,
+}
+
+pub fn dust_floor_msat(sim: &Sim) -> u64 {
+	sim.dust_floor_msat()
 }
 
 impl RestartOracle {
@@ -259,6 +264,15 @@ impl RestartOracle {
 							let sent = self.sent_at.get(&(node, payment_hash.0)).cloned().unwrap_or(0);
 							let stale = self.last_restart_snapshot.contains_key(&node) && !self.sent_lineage.get(&node).map(|l| l.contains(&payment_hash.0)).unwrap_or(false);
 							let tracked = sim.monitor_htlcs_at_restart.get(&node).map(|v| v.iter().any(|(h, _)| *h == payment_hash.0)).unwrap_or(false);
+							// a fulfil that was never committed for an HTLC too small for a commitment output: the
+							// channel is closed on chain from the stale state, the HTLC is forfeited to fees and the
+							// restarted lineage (which never handled PaymentSent) truthfully reports the failure
+							let dustable = sim.pays.iter().find(|p| p.hash == *payment_hash && p.from == node).map(|p| p.amt_msat < dust_floor_msat(sim)).unwrap_or(false);
+							let tracked_without_preimage = sim.monitor_htlcs_at_restart.get(&node).map(|v| v.iter().any(|(h, pre)| *h == payment_hash.0 && !*pre)).unwrap_or(false);
+							if stale && tracked_without_preimage && dustable {
+								self.stats.dust_forfeited_after_stale_restart += 1;
+								continue;
+							}
 							let key = if stale && !tracked {
 								"contradictory-terminal-events/failed-after-sent/manager-snapshot-predates-sent"
 							} else if stale {
@@ -328,14 +342,7 @@ impl RestartOracle {
 			// an HTLC too small for a commitment output is forfeited if its channel closes on chain before the
 			// claim is committed (the properties' stated exception): only non-dust amounts are asserted, with a
 			// margin of twice the highest current feerate estimate
-			let mut maxfee = 253u64;
-			for nd in sim.w.nodes.iter() {
-				maxfee = maxfee.max(*nd.fee_estimator.sat_per_kw.lock().unwrap() as u64);
-				for (_, v) in nd.fee_estimator.target_override.lock().unwrap().iter() {
-					maxfee = maxfee.max(*v as u64);
-				}
-			}
-			let dust_floor_msat = (354 + 703 * 2 * maxfee / 1000 + 1) * 1000;
+			let dust_floor_msat = dust_floor_msat(sim);
 			for p in sim.pays.iter() {
 				if p.claimed_event && p.amt_msat >= dust_floor_msat {
 					let t = self.terminal.get(&(p.from, p.hash.0)).cloned().unwrap_or((0, 0));
